@@ -15,7 +15,7 @@ from harness import common as C
 HEADER = """From Coq Require Import List Bool NArith Uint63. Import ListNotations.
 From TLV Require Import Model.Backend Corr.C17."""
 
-TIMEOUT = 60  # seconds a driver waits for a worker before declaring the harness stuck
+TIMEOUT = 180  # seconds a driver waits for a worker before declaring the harness stuck (HARNESS ERROR, never a verdict)
 
 
 class Boom(Exception):
